@@ -64,7 +64,52 @@ func c09Gate(c *Ctx, ctorName, producer, accessor string) {
 	if idParam == nil {
 		broken("%s has no id parameter", ctorName)
 	}
-	idPath := path(idParam)
+	// … or read back from the field of the object under construction that holds
+	// it: a field whose only store in the whole module is `x.f = id` in the
+	// constructor, on the constructor's own allocation (a gatekeeper that became a
+	// method of the object reads p.id where the closure read the captured id)
+	idPaths := map[string]bool{path(idParam): true}
+	{
+		var idField *types.Var
+		nStores, okStore := map[*types.Var]int{}, map[*types.Var]bool{}
+		for _, fn := range P.Funcs {
+			eachInstr(fn, func(_ *ssa.BasicBlock, _ int, in ssa.Instruction) {
+				st, ok := in.(*ssa.Store)
+				if !ok {
+					return
+				}
+				fa, ok := st.Addr.(*ssa.FieldAddr)
+				if !ok || !isNamed(st.Val.Type(), "net/url", "URL") {
+					return
+				}
+				f := fieldOf(fa)
+				nStores[f]++
+				if al, isAl := unwrapLoad(fa.X).(*ssa.Alloc); isAl && al.Heap && al.Parent() == ctor && fn == ctor && unwrapLoad(st.Val) == ssa.Value(idParam) {
+					okStore[f] = true
+				}
+			})
+		}
+		for f, n := range nStores {
+			if n == 1 && okStore[f] {
+				idField = f
+			}
+		}
+		if idField != nil {
+			eachInstr(g, func(_ *ssa.BasicBlock, _ int, in ssa.Instruction) {
+				u, ok := in.(*ssa.UnOp)
+				if !ok || u.Op != token.MUL {
+					return
+				}
+				fa, ok := u.X.(*ssa.FieldAddr)
+				if !ok || fieldOf(fa) != idField {
+					return
+				}
+				if al, isAl := unwrapLoad(fa.X).(*ssa.Alloc); isAl && al.Heap && al.Parent() == ctor {
+					idPaths[path(u)] = true
+				}
+			})
+		}
+	}
 	for _, b := range g.Blocks {
 		ret, ok := b.Instrs[len(b.Instrs)-1].(*ssa.Return)
 		if !ok {
@@ -104,7 +149,14 @@ func c09Gate(c *Ctx, ctorName, producer, accessor string) {
 		itemPath := path(ex)
 		accPath := "call:(*servitor/pub." + map[string]string{"ActorIdentifier": "Activity", "ParentIdentifier": "Post"}[accessor] + ")." + accessor + "(" + itemPath + ")"
 		wantL := "call:(*net/url.URL).String(" + accPath + ")"
-		wantR := "call:(*net/url.URL).String(" + idPath + ")"
+		isWantR := func(p string) bool {
+			for idPath := range idPaths {
+				if p == "call:(*net/url.URL).String("+idPath+")" {
+					return true
+				}
+			}
+			return false
+		}
 		eq, idNonNil, accNonNil := false, false, false
 		for _, f := range facts {
 			cmp, ok := f.Cmp()
@@ -112,11 +164,11 @@ func c09Gate(c *Ctx, ctorName, producer, accessor string) {
 				continue
 			}
 			px, py := path(cmp.X), path(cmp.Y)
-			if cmp.Op == token.EQL && ((px == wantL && py == wantR) || (px == wantR && py == wantL)) {
+			if cmp.Op == token.EQL && ((px == wantL && isWantR(py)) || (isWantR(px) && py == wantL)) {
 				eq = true
 			}
 			if cmp.Op == token.NEQ && isNilConst(cmp.Y) {
-				if px == idPath {
+				if idPaths[px] {
 					idNonNil = true
 				}
 				if px == accPath {
@@ -252,7 +304,7 @@ func c09R3(c *Ctx) {
 					stored := false
 					for _, r := range refs(call) {
 						if st, ok := r.(*ssa.Store); ok {
-							if _, isIdx := st.Addr.(*ssa.IndexAddr); isIdx {
+							if slotAddrOf(st.Addr) != nil {
 								stored = true
 							}
 						}
